@@ -897,7 +897,7 @@ SUPPORT_INLINE T mul_overflow_t(T x, T y, FastUInt8* of) noexcept {
   using I = std_int_t<sizeof(T) * 2, std::is_unsigned_v<T>>;
   using U = std::make_unsigned_t<I>;
 
-  U mask = bit_ones<U>;
+  U mask = U(bit_ones<std::make_unsigned_t<T>>);
   if constexpr (std::is_signed_v<T>) {
     U prod = U(I(x)) * U(I(y));
     *of = FastUInt8(*of | FastUInt8(I(prod) < I(std::numeric_limits<T>::lowest()) || I(prod) > I(std::numeric_limits<T>::max())));
